@@ -7,7 +7,7 @@ import itertools
 
 import numpy as np
 
-from vt.core import alpha, bind, pool
+from vt.core import alpha, bind, pool, graph
 from vt.ref import lattice as rl
 
 ID = "C02"
@@ -131,6 +131,10 @@ def judge_weights(sizes, interpolation, X, W, Wref):
 
 
 def replay(case):
+  if case["kind"] == "graph":
+    layer = make_layer(case["sizes"], 1, case["interpolation"], case["clip"])
+    Xg = np.asarray(case["points"], dtype=np.float32)
+    return graph.graph_msg(layer, Xg if case["form"] == "tensor" else [Xg[:, k:k + 1] for k in range(Xg.shape[1])])
   sizes, interp, clip, form = case["sizes"], case["interpolation"], case["clip"], case["form"]
   kind = case.get("kind", "weights")
   if kind == "weights":
@@ -335,6 +339,12 @@ def work(ctx, item):
         case = dict(item); case["points"] = X[max(0, r - 1):r + 2].tolist(); case["kernel"] = k.tolist()
         ctx.violation(s, case, replay(case) or "units=1 mismatch %.4g at %s" % (err[r], X[r].tolist()))
         break
+    # the same call traced as a graph with an unknown batch size (Keras fit / predict)
+    Xg = np.asarray(X[: min(len(X), 64)], dtype=np.float32)
+    gm = graph.graph_msg(layer, Xg if form == "tensor" else [Xg[:, k:k + 1] for k in range(Xg.shape[1])])
+    if gm:
+      s = dict(sig); s["violated"] = "graph-mode"
+      ctx.violation(s, dict(item, kind="graph", points=Xg.tolist()), gm)
   elif kind == "perunit":
     X = grid_for(sizes, outside=clip)
     msg = _perunit(sizes, interp, clip, form, X)
